@@ -124,11 +124,20 @@ func (r *Recorder) Journal(c any) {
 	if !r.journal {
 		return
 	}
-	b, err := json.Marshal(map[string]any{"property": r.Prop, "case": c})
+	b, err := json.Marshal(map[string]any{"property": r.Prop, "verdict": "crash or hang while this case was executing", "case": c})
 	if err != nil {
 		return
 	}
 	_ = os.WriteFile(filepath.Join(r.outDir, r.Prop+".journal.json"), b, 0o644)
+}
+
+// Snapshot serialises a case before it is executed (run functions may mutate their input).
+func Snapshot(c any) json.RawMessage {
+	raw, err := json.Marshal(c)
+	if err != nil {
+		raw = []byte(fmt.Sprintf("%q", fmt.Sprint(c)))
+	}
+	return raw
 }
 
 // ClearJournal removes the journal after a case returned.
@@ -140,9 +149,9 @@ func (r *Recorder) ClearJournal() {
 
 // Record accounts for one executed case.
 func (r *Recorder) Record(c any, o Outcome) {
-	raw, err := json.Marshal(c)
-	if err != nil {
-		raw = []byte(fmt.Sprintf("%q", fmt.Sprint(c)))
+	raw, ok := c.(json.RawMessage)
+	if !ok {
+		raw = Snapshot(c)
 	}
 	r.mu.Lock()
 	defer r.mu.Unlock()
@@ -308,10 +317,11 @@ func Run[C any](t *testing.T, prop string, gen func(*rapid.T) C, run func(C) Out
 		if err := json.Unmarshal(rep.Case, &c); err != nil {
 			t.Fatalf("replay: cannot decode case: %v", err)
 		}
-		r.Journal(c)
+		raw := Snapshot(c)
+		r.Journal(raw)
 		o := run(c)
 		r.ClearJournal()
-		r.Record(c, o)
+		r.Record(raw, o)
 		if o.Fail != "" {
 			t.Fatalf("REPLAY-FAIL %s: %s", prop, o.Fail)
 		}
@@ -322,10 +332,11 @@ func Run[C any](t *testing.T, prop string, gen func(*rapid.T) C, run func(C) Out
 	}
 	rapid.Check(t, func(rt *rapid.T) {
 		c := gen(rt)
-		r.Journal(c)
+		raw := Snapshot(c)
+		r.Journal(raw)
 		o := run(c)
 		r.ClearJournal()
-		r.Record(c, o)
+		r.Record(raw, o)
 		if o.Fail != "" {
 			rt.Fatalf("%s: %s", prop, o.Fail)
 		}
